@@ -709,6 +709,24 @@ class TextXVisitor(RRELVisitor):
 
         _update_attr_multiplicities(root_rule, set())
 
+        # An attribute assigned by "?=" holds a single bool. If the same
+        # attribute can also collect other values it would be a list that
+        # the bool assignment overwrites.
+        for attr in cls._tx_attrs.values():
+            if attr.bool_assignment and attr.mult in [
+                MULT_ZEROORMORE,
+                MULT_ONEORMORE,
+            ]:
+                line, col = self.grammar_parser.pos_to_linecol(attr.position)
+                raise TextXSemanticError(
+                    f'Attribute "{attr.name}" assigned by "?=" in rule'
+                    f' "{rule_name}" can collect multiple values'
+                    f" at {(line, col)}.",
+                    line,
+                    col,
+                    filename=self.metamodel.file_name,
+                )
+
         return root_rule
 
     def visit_rule_name(self, node, children):
